@@ -134,12 +134,14 @@ fn cmd_drive(args: &[String]) -> i32 {
         "seed": seed, "start": start, "sessions": st.sessions, "processes": st.processes, "requests": st.requests, "run_s": run_s,
         "harvest": hinfo, "reference_processes": refs.len(),
         "classes": {"ok": st.ok, "diagnostic": st.diagnostics, "panic_caught": st.panics_caught, "worker_crash": st.worker_crashes},
+        "faults_issued_by_the_simulator": {"requests_for_known_failing_inputs": st.fault_requests_issued, "requests_served_without_catch_unwind": st.kill_requests_issued,
+                                           "process_restarts": st.process_restarts},
         "faults": {"diagnostic_requests": st.diagnostics, "expander_panics_caught": st.panics_caught, "worker_crash_and_replace": st.worker_crashes,
                    "process_restarts": st.process_restarts, "clock_skewed_processes": st.clock_skewed, "pid_faked_processes": st.pid_faked},
         "multi_worker_processes": st.multi_worker_sessions,
         "environment_dimensions_exercised": {"processes_under_a_host_executable_name": st.dim_host_named, "processes_with_a_manifest_on_disk": st.dim_manifest_on_disk,
             "processes_with_cargo_variables": st.dim_cargo_vars, "processes_pinned_to_a_cpu_subset": st.dim_cpu_pinned, "processes_with_seeded_hostname_or_uid": st.dim_hostname_uid,
-            "processes_in_a_sub_directory": st.dim_cwd_subdir, "processes_serving_1000_or_more_requests": st.long_processes},
+            "processes_in_a_sub_directory": st.dim_cwd_subdir, "processes_on_a_terminal": st.dim_tty, "processes_serving_1000_or_more_requests": st.long_processes},
         "distinct_entropy_seeds": st.entropy_seeds.len(), "distinct_layouts": st.layouts.len(),
         "distinct_keys": st.keys_seen.len(), "distinct_contexts": st.contexts.len(), "distinct_nontrivial_contexts": nontrivial,
         "environment_seams_consulted_by_the_code": {"getrandom_calls": st.seam_getrandom, "clock_calls": st.seam_clock, "getpid_calls": st.seam_getpid,
